@@ -1111,6 +1111,9 @@ func c06Sequences(w *core.W, j int) {
 			[]exp{{"one.x.example.", 600}, {"two.x.example.", 600}, {"one.y.example.", 600}, {"two.y.example.", 600}, {"one.a.example.", 600}, {"two.a.example.", 600}}},
 		seq{"same-file-included-again-after-a-file-that-includes-it", "$ORIGIN a.example.\n$TTL 50\n$INCLUDE outer.db\n$INCLUDE ttl.db z.example.\n$INCLUDE outer.db w.example.\n",
 			[]exp{{"one.a.example.", 600}, {"two.a.example.", 50}, {"o.a.example.", 50}, {"one.z.example.", 600}, {"two.z.example.", 50}, {"one.w.example.", 600}, {"two.w.example.", 50}, {"o.w.example.", 50}}},
+		// unit-suffixed TTLs with components that are zero
+		seq{"ttl-zero-components", "$ORIGIN a.example.\na 0s A 192.0.2.1\nb 0h IN A 192.0.2.1\nc IN 1h0m A 192.0.2.1\nd 1H0S A 192.0.2.1\n$TTL 0w1d\ne A 192.0.2.1\n$TTL 0d0h0m5s\nf A 192.0.2.1\ng 0w0d0h0m0s A 192.0.2.1\nh 1w0s A 192.0.2.1\n",
+			[]exp{{"a.a.example.", 0}, {"b.a.example.", 0}, {"c.a.example.", 3600}, {"d.a.example.", 3600}, {"e.a.example.", 86400}, {"f.a.example.", 5}, {"g.a.example.", 0}, {"h.a.example.", 604800}}},
 		seq{"$TTL-wins-over-explicit", "$ORIGIN a.example.\n$TTL 300\none 600 A 192.0.2.1\ntwo A 192.0.2.2\n",
 			[]exp{{"one.a.example.", 600}, {"two.a.example.", 300}}},
 	)
@@ -1185,6 +1188,46 @@ func c06Sequences(w *core.W, j int) {
 		"zones/outer.db": &fstest.MapFile{Data: []byte("$INCLUDE ttl.db\no A 192.0.2.9\n")},
 		"zones/gen0.db": &fstest.MapFile{Data: []byte("g0 60 A 192.0.2.1\n")},
 		"zones/gen1.db": &fstest.MapFile{Data: []byte("g1 61 A 192.0.2.1\n")},
+	}
+	// pairs of texts that denote the same entries: the plain one-line form, and the same entry spread over
+	// lines inside parentheses with comments glued to tokens (no blank before the semicolon), comments after
+	// a blank, unit-suffixed timers with zero components
+	for _, eq := range []struct{ name, plain, decorated string }{
+		{"soa-comments-glued-to-tokens", "@ 300 IN SOA ns mbox 2024010101 7200 3600 1209600 300\n",
+			"@ 300 IN SOA ns mbox ( 2024010101;serial\n\t7200;refresh\n 3600 ;retry\n\t\t1209600;expire\n 300;minimum\n)\n"},
+		{"soa-timers-with-zero-components", "@ 300 IN SOA ns mbox 1 3600 900 604800 0\n", "@ 300 IN SOA ns mbox ( 1 1h0m 0h15m 1w0d 0s )\n"},
+		{"mx-comment-glued", "m 300 IN MX 10 mail\n", "m 300 IN MX ( 10;preference\n\tmail;the host\n)\n"},
+		{"srv-comments-glued", "s 300 IN SRV 1 2 53 target\n", "s 300 IN SRV ( 1;priority\n 2;weight\n\t53;port\n target )\n"},
+		{"ns-comment-glued", "n 300 IN NS ns1\n", "n 300 IN NS ( ns1;the server\n )\n"},
+		{"ds-comment-glued", "d 300 IN DS 12345 8 2 AABBCCDD\n", "d 300 IN DS ( 12345;tag\n 8;alg\n 2;digest type\n AABB;first half\n CCDD )\n"},
+		{"txt-comment-glued", "t 300 IN TXT one two\n", "t 300 IN TXT ( one;first\n two;second\n)\n"},
+		{"naptr-comments-glued", "p 300 IN NAPTR 100 10 \"u\" \"sip\" \"\" target\n", "p 300 IN NAPTR ( 100;order\n 10;pref\n \"u\";flags\n \"sip\" \"\" target )\n"},
+		{"owner-ttl-class-comment-glued", "c 300 IN A 192.0.2.1\n", "c 300 IN A ( 192.0.2.1;the address\n )\n"},
+	} {
+		parse := func(text string) ([][]byte, error) {
+			var out [][]byte
+			zp := dns.NewZoneParser(strings.NewReader("$ORIGIN a.example.\n"+text), "", "")
+			for rr, ok := zp.Next(); ok; rr, ok = zp.Next() {
+				b, _ := packRR(rr)
+				out = append(out, b)
+			}
+			return out, zp.Err()
+		}
+		w.Eval(1)
+		w.Count("equivalent_rendering_pairs", 1)
+		wit := map[string]any{"plain": eq.plain, "decorated": eq.decorated}
+		var a, b [][]byte
+		var ea, eb error
+		if w.Guard("ZoneParser", wit, func() { a, ea = parse(eq.plain); b, eb = parse(eq.decorated) }) {
+			continue
+		}
+		if ea != nil || len(a) != 1 {
+			w.Violation("C06/equivalent/"+eq.name+"/plain-form-rejected", fmt.Sprintf("%q: %v", eq.plain, ea), wit)
+			continue
+		}
+		if eb != nil || len(b) != 1 || !bytes.Equal(a[0], b[0]) {
+			w.Violation("C06/equivalent/"+eq.name, fmt.Sprintf("the entry spread over lines with comments reads as err=%v / another record than its one-line form\n%s", eb, eq.decorated), wit)
+		}
 	}
 	for _, sq := range seqs {
 		w.Eval(1)
